@@ -80,6 +80,8 @@ def check_values(case):
     order = list(sim.markets)
     rng.shuffle(order)          # the index market may be listed before its components: all markets still advance together, components first
     for t in range(case["steps"]):
+        if t == 2 and case["seed"] % 3 == 0:
+            comps[-1].outstanding_shares = comps[-1].outstanding_shares * 3 + 1       # a share issuance between two steps (user event): the weights are the components' current outstanding shares
         try:
             sim._update_times_on_markets(order)
         except AssertionError as e:
@@ -89,7 +91,7 @@ def check_values(case):
         for m in ms:
             if t > 0:
                 m._market_prices[m.get_time()] = round(rng.uniform(50, 150), 2)
-        hist.append(([m.get_market_price() for m in comps], [m.get_fundamental_price() for m in comps]))
+        hist.append(([m.get_market_price() for m in comps], [m.get_fundamental_price() for m in comps], [c.outstanding_shares for c in comps]))
         tot = sum(c.outstanding_shares for c in comps)
         for q in range(t + 1):
             want_m = sum(p * c.outstanding_shares for p, c in zip(hist[q][0], comps)) / tot
@@ -105,6 +107,7 @@ def check_values(case):
                         return f"{name}() at clock {t} = {got}, share-weighted average of the components = {want}"
             # the fundamental value recorded by the index when the clock advanced
             rec = idx.get_fundamental_price(time=q)
+            want_f = sum(p * sh for p, sh in zip(hist[q][1], hist[q][2])) / sum(hist[q][2])      # with the shares outstanding when the clock advanced to q
             if not math.isclose(rec, want_f, rel_tol=1e-12, abs_tol=1e-12):
                 return f"recorded fundamental value of the index at time {q} = {rec}, weighted average of the components' fundamentals = {want_f}"
     return None
